@@ -260,7 +260,10 @@ class Repo:
         from .classcanon import canon_helper_objects, canon_memo_attributes
         self.memo_attributes = canon_memo_attributes([m.tree for m in self.modules.values()])
         self.helper_objects_expanded = canon_helper_objects([m.tree for m in self.modules.values()])
-        from .gencanon import canon_generators
+        for m in self.modules.values():
+            m.tree._modname = m.name        # type: ignore[attr-defined]
+        from .gencanon import canon_context_managers, canon_generators
+        self.context_managers_expanded = canon_context_managers([m.tree for m in self.modules.values()])
         self.generators_rewritten = canon_generators([m.tree for m in self.modules.values()])
         for m in self.modules.values():
             m.tree = _FlagCanon().visit(_Canon().visit(m.tree))
@@ -600,6 +603,19 @@ class Repo:
                     return a >= b
             except TypeError as e:
                 raise AnalysisError(str(e))
+        if isinstance(node, ast.Subscript):
+            base = F(node.value)
+            try:
+                if isinstance(node.slice, ast.Slice):
+                    lo = F(node.slice.lower) if node.slice.lower is not None else None
+                    hi = F(node.slice.upper) if node.slice.upper is not None else None
+                    st_ = F(node.slice.step) if node.slice.step is not None else None
+                    return base[lo:hi:st_]
+                return base[F(node.slice)]
+            except (IndexError, KeyError) as e:
+                raise FoldRaised("%s: %s" % (type(e).__name__, ast.unparse(node)[:80]))
+            except TypeError as e:
+                raise AnalysisError("cannot fold %s: %s" % (ast.unparse(node)[:80], e))
         if isinstance(node, ast.IfExp):
             return F(node.body) if F(node.test) else F(node.orelse)
         if isinstance(node, ast.JoinedStr):
@@ -610,6 +626,25 @@ class Repo:
 
     def _fold_call(self, node: ast.Call, m: Module, func: Optional[FuncInfo], env: Dict[str, Any]) -> Any:
         F = lambda n: self.fold(n, m, func, env)  # noqa
+        # islice(accumulate(repeat(x), f), n): x, f(x, x), f(f(x, x), x), ... (n values); bounded, f a function of the package
+        dn = (dotted(node.func) or "").split(".")[-1]
+        if dn == "islice" and len(node.args) == 2 and isinstance(node.args[0], ast.Call) and (dotted(node.args[0].func) or "").split(".")[-1] == "accumulate":
+            acc = node.args[0]
+            src = acc.args[0] if acc.args else None
+            fn_node = acc.args[1] if len(acc.args) > 1 else next((k.value for k in acc.keywords if k.arg == "func"), None)
+            n_ = F(node.args[1])
+            if isinstance(src, ast.Call) and (dotted(src.func) or "").split(".")[-1] == "repeat" and len(src.args) == 1 and fn_node is not None \
+                    and isinstance(n_, int) and 0 <= n_ <= 100000 and isinstance(fn_node, ast.Name):
+                x = F(src.args[0])
+                r = self.resolve_name(m, fn_node.id, func)
+                if r and r[0] == "fn":
+                    out = []
+                    cur = x
+                    for i in range(n_):
+                        if i:
+                            cur = self._fold_repo_call(r[1], [cur, x], {})
+                        out.append(cur)
+                    return out
         if isinstance(node.func, ast.Name) and node.func.id == "isinstance" and len(node.args) == 2 and "isinstance" not in env:
             types = {"int": int, "bool": bool, "float": float, "str": str, "bytes": bytes, "list": list, "tuple": tuple, "dict": dict}
             tn = node.args[1].elts if isinstance(node.args[1], ast.Tuple) else [node.args[1]]
@@ -745,6 +780,17 @@ class Repo:
             else:
                 raise AnalysisError("%s uses a statement outside the evaluated sublanguage: %s" % (fi.name, type(st).__name__))
         return False, None
+
+    def raw_function(self, fi: FuncInfo) -> ast.AST:
+        """the function as written (before the load-time canonicalisations), for rules about the spelling itself"""
+        cache = self.__dict__.setdefault("_raw_trees", {})
+        tree = cache.get(fi.module.name)
+        if tree is None:
+            tree = cache[fi.module.name] = ast.parse(fi.module.source, filename=fi.module.path)
+        for n in ast.walk(tree):
+            if isinstance(n, (ast.FunctionDef, ast.AsyncFunctionDef)) and n.name == fi.name and n.lineno == fi.node.lineno:      # type: ignore[attr-defined]
+                return n
+        return fi.node
 
     # ----------------------------------------------------------------- helpers
     def src(self, node: ast.AST) -> str:
